@@ -49,6 +49,14 @@ type Plan struct {
 	Odd                   []OddContent         `json:"odd,omitempty"` // odd-content faults (C16)
 	SignerFaults          []SignerFaultSpec    `json:"signer_faults,omitempty"`
 	AccountKind           int                  `json:"account_kind"`
+	// HideSync: the account provider has no account for HideSyncAccount when asked by index for
+	// sync committee work (an exited validator still in the committee).
+	HideSync        bool `json:"hide_sync,omitempty"`
+	HideSyncAccount int  `json:"hide_sync_account,omitempty"`
+	// SyncZero: the signer returns no signature for SyncZeroSig's sync committee messages.
+	SyncZero          bool   `json:"sync_zero,omitempty"`
+	SyncZeroSig       int    `json:"sync_zero_sig,omitempty"`
+	SyncCommitteeSize uint64 `json:"sync_committee_size,omitempty"`
 }
 
 // Reorg changes a duty-dependent root from the head event of Slot on.
@@ -98,6 +106,9 @@ func NewModel(p *Plan) *Model {
 	c.TargetAggregatorsPerCommittee = p.TargetAggregators
 	c.TargetAggregatorsPerSyncSubcommittee = 2
 	c.SyncCommitteeSize = 8
+	if p.SyncCommitteeSize != 0 {
+		c.SyncCommitteeSize = p.SyncCommitteeSize
+	}
 	c.SyncCommitteeSubnetCount = 4
 	c.AltairForkEpoch = phase0.Epoch(p.AltairEpoch)
 	c.BellatrixForkEpoch = phase0.Epoch(p.AltairEpoch)
